@@ -10,23 +10,29 @@ theorem registry_function_of_frames (ops : List Op) (w : WfOps ops) (c : Nat) :
     c ∈ (after ops).contexts ↔ c = 0 ∨ ∃ f ∈ frames (after ops), f.id = c ∧ f.isReg = true :=
   (after_inv w).c.iff c
 
-/-- an append is accepted iff the topic has no NUL and either it is an `xs.context` frame in
-    the zero context or its context is registered -/
+/-- an append is accepted iff the topic has no NUL, either it is an `xs.context` frame in the
+    zero context or its context is registered, and (unless ephemeral) its JSON reads back -/
 theorem append_accepted_iff (s : State) (f : Frame) (id : Nat) :
     (∃ r, s.append f id = .ok r) ↔
-      hasNul f.topic = false ∧ (if f.topic = xsContext then f.ctx = 0 else f.ctx ∈ s.contexts) := by
+      hasNul f.topic = false ∧ (if f.topic = xsContext then f.ctx = 0 else f.ctx ∈ s.contexts) ∧
+      ((stamped f id).ttl = some .ephemeral ∨ f.decodable = true) := by
   constructor
   · rintro ⟨⟨s', f'⟩, e⟩
-    exact ⟨(append_ok e).1, (append_ok e).2.2.1⟩
-  · rintro ⟨h1, h2⟩; exact append_accepts h1 h2
+    obtain ⟨h1, h2, h3, h4⟩ := append_spec.1 e
+    refine ⟨h1, h2, ?_⟩
+    by_cases he : f'.ttl = some .ephemeral
+    · left; rw [← h3]; exact he
+    · right; simp only [he, if_false] at h4; have := h4.1; rw [h3] at this; simpa [stamped] using this
+  · rintro ⟨h1, h2, h3⟩; exact append_accepts h1 h2 h3
 
 /-- … i.e. iff its registering `xs.context` frame is currently stored in the zero context -/
 theorem append_accepted_iff_registered (ops : List Op) (w : WfOps ops) (f : Frame) (id : Nat)
-    (ht : f.topic ≠ xsContext) :
+    (ht : f.topic ≠ xsContext) (hd : f.decodable = true) :
     (∃ r, (after ops).append f id = .ok r) ↔
       hasNul f.topic = false ∧
         (f.ctx = 0 ∨ ∃ g ∈ frames (after ops), g.id = f.ctx ∧ g.isReg = true) := by
   rw [append_accepted_iff, if_neg ht, registry_function_of_frames ops w]
+  simp [hd]
 
 /-- `xs.context` frames are accepted only in the zero context and kept forever whatever TTL
     was requested -/
